@@ -9,7 +9,8 @@ open PwVerif PwVerif.Macro PwVerif.Proto
     cfg <0|1> <0|1>                   dupRetRefused, unused parameter unlinked (0 = pinned dangling link)
     def <node>                        the top-level macro class (prefix token form, see `pNode`)
     build <n> (<k> <val>)*            instantiate with keyword arguments
-    setin <path> <k> <val>            node_at_path.inputs[k].value = val
+    setin <path> <k> <val>            node_at_path.inputs[k].value = val   (`refused` when the chain refuses)
+    lock <path> | unlock <path>       mark the node at path running / not running (inputs locked)
     setout <path> <o> <val>           node_at_path.outputs[o].value = val
     setuiin <path> <k> <val>          UI node k of the macro at path: inputs.user_input.value = val
     setuiout <path> <k> <val>         … outputs.user_input.value = val
@@ -19,7 +20,7 @@ open PwVerif PwVerif.Macro PwVerif.Proto
     call <n> (<k> <val>)*             macro(**kwargs)
 
   path: `-` (the macro itself) or child indices `0.2.1`.
-  val:  ND | d | c<N> | A <f> <n> <val>*n
+  val:  ND | d | c<N> | i<N> (an int object) | A <f> <n> <val>*n
   node: L <f> <n> <src>*n
         M <nargs> (<val> <hint>)*  <nbody> <node>*  <nrets> <ret>*  <noh> <hint>*  <nsrc> <src>*
   src:  a <k> | o <j> <o> | k <val> | n            ret: a <k> | o <j> <o>
@@ -48,7 +49,12 @@ partial def pVal : P Val
   | w :: ws =>
     if w.startsWith "c" then
       match (w.drop 1).toNat? with
-      | some n => if n = 0 then none else some (.c n, ws)
+      | some n => if n = 0 || n ≥ 1000 then none else some (.c n, ws)
+      | none => none
+    else if w.startsWith "i" then
+      -- an `int` object: constants from 1000 on
+      match (w.drop 1).toNat? with
+      | some n => some (.c (1000 + n), ws)
       | none => none
     else none
   | [] => none
@@ -101,7 +107,7 @@ def pPath (w : String) : Option Path :=
 partial def showVal : Val → String
   | .nd => "ND"
   | .c 0 => "d"
-  | .c n => s!"c{n}"
+  | .c n => if n ≥ 1000 then s!"i{n - 1000}" else s!"c{n}"
   | .app f as => s!"f{f}(" ++ ",".intercalate (as.map showVal) ++ ")"
 
 def showVals (f : Nat → Val) (n : Nat) : String := ",".intercalate ((List.range n).map fun k => showVal (f k))
@@ -189,8 +195,9 @@ structure DS where
   st : Option St
   dead : Bool
   pristine : Bool      -- no child-level input has been assigned so far (`den`/`flat` lines are printed)
+  locked : List Path   -- nodes marked running (their inputs refuse assignments)
 
-def init : DS := { cfg := Cfg.pinned, dfn := none, st := none, dead := false, pristine := true }
+def init : DS := { cfg := Cfg.pinned, dfn := none, st := none, dead := false, pristine := true, locked := [] }
 
 def pKw : P (Nat × Val) := fun ws => do
   let (k, ws) ← pNat ws
@@ -249,15 +256,16 @@ def step (s : DS) (ws : List String) : DS × List String :=
       if buildErr s.cfg n then ({ s with st := none }, ["build err"])
       else
         let σ := applyKw n (build n) kw
-        ({ s with st := some σ, dead := false, pristine := true },
+        ({ s with st := some σ, dead := false, pristine := true, locked := [] },
          ["build ok", "iface " ++ showIface n, "static " ++ showStatic s.cfg n, "st " ++ showSt n σ])
     | _, _ => (s, ["bad-op"])
   | "setin" :: p :: rest =>
     match pPath p, pKw rest with
     | some p, some ((k, v), []) =>
       live s fun n σ =>
-        let σ' := setInAt n σ p k v
-        ({ s with st := some σ', pristine := s.pristine && p.isEmpty }, ["st " ++ showSt n σ'])
+        let r := pushInAt (fun q => s.locked.contains q) n σ p k v
+        if r.2 then ({ s with st := some r.1, pristine := s.pristine && p.isEmpty }, ["st " ++ showSt n r.1])
+        else ({ s with st := some r.1 }, ["refused", "st " ++ showSt n r.1])
     | _, _ => (s, ["bad-op"])
   | "setout" :: p :: rest =>
     match pPath p, pKw rest with
@@ -280,6 +288,14 @@ def step (s : DS) (ws : List String) : DS × List String :=
         let σ' := (setUiOutAt n σ p k v).1
         ({ s with st := some σ' }, ["st " ++ showSt n σ'])
     | _, _ => (s, ["bad-op"])
+  | ["lock", p] =>
+    match pPath p with
+    | some p => live s fun _ _ => ({ s with locked := p :: s.locked }, [])
+    | none => (s, ["bad-op"])
+  | ["unlock", p] =>
+    match pPath p with
+    | some p => live s fun _ _ => ({ s with locked := s.locked.filter (· != p) }, [])
+    | none => (s, ["bad-op"])
   | ["resend", p, k] =>
     -- `ch.value = ch.value` on an input: the value it already holds is assigned again
     match pPath p, k.toNat? with
